@@ -239,6 +239,12 @@ class Axis(ast.NodeVisitor):
             known = {t for t in tags if t in ('X', 'Y')}
             if len(known) > 1:
                 self.report(n, '%s() over values of different axes: %s' % (nm, unparse(n)[:70]))
+        if nm == 'range' and len(n.args) >= 2:
+            # start, stop and step of one range run along one axis
+            tags = [self.tag(a) for a in n.args]
+            known = {t for t in tags if t in ('X', 'Y')}
+            if len(known) > 1:
+                self.report(n, 'range() whose start/stop/step are of different axes: %s' % unparse(n)[:70])
 
     def _check_pair(self, tup, what):
         """(a, b[, z]) / (minx, miny, maxx, maxy) literals: a Y value in an X slot"""
